@@ -37,14 +37,22 @@
 (*   "stale_after_assign"  - (facet 4, Reassign) an assignment of a public *)
 (*                           parameter keeps what the object derived from  *)
 (*                           the old parameters                            *)
+(*   "dia_as_diagonal"     - (facet 1c) the storage FORMAT of a matrix is  *)
+(*                           taken for its STRUCTURE: a square root stored *)
+(*                           by diagonals is solved with its main diagonal *)
+(*   "shared_derived"      - (facet 5, Siblings) the conditioned copies of *)
+(*                           one conditional object share what they derive *)
+(*                           from their parameters for sampling            *)
 (***************************************************************************)
 EXTENDS DiffOps
 
-CONSTANTS Facet,        \* "cases" (configuration enumeration) | "stream" (behaviours) | "reassign" (facet 4)
+CONSTANTS Facet,        \* "cases" (configuration enumeration) | "stream" (behaviours) | "reassign" (facet 4) | "siblings" (facet 5)
           Dev,          \* "none" or a named deviation
           MaxDim,       \* Gaussian lattice: dimensions 1..MaxDim (<= 3)
           PinvMax,      \* largest 1-D node count with the rational pseudo-inverse design check (orders 0, 1)
           BigDims,      \* dimensions at the real dense/sparse threshold (diagonal forms only)
+          FsDims,       \* facet 1c (structure x format x threshold side): dimensions (3 or 4)
+          FsFormats,    \* facet 1c: storage formats
           MaxSteps,     \* stream facet: behaviour length
           StreamDists, StreamNs, StreamRngs
 
@@ -167,6 +175,89 @@ BigLaw ==
         LET g == BigGen(c)
             p == PrecOfDiag(c.form, DataDiag(c.form, g))
         IN \A i \in 1..c.dim : RMul(RSq(RInv(g[i])), p[i]) = One
+
+\* ===========================================================================
+\*  Facet 1c : STRUCTURE of the matrix handed in  x  storage FORMAT  x  side of the dense/sparse threshold
+\* ===========================================================================
+\* The distribution a Gaussian denotes is a function of the VALUES of the matrix handed in (by the convention of the form),
+\* not of the container that stores them and not of the side of cuqi.config.MIN_DIM_SPARSE the dimension lies on.  For every
+\* form the matrix X has one of five structures; the spec supplies X, the precision P = PrecOf(form, X) and the design's L;
+\* `format` (the container the replayer must use) and `side` / `thr` (value of MIN_DIM_SPARSE during construction: dim is
+\* "above" iff dim > thr) are dimensions of the configuration that the expected values do NOT depend on - FsLaw checks the
+\* affine law for every one of them, and the named deviation "dia_as_diagonal" (a format taken for a structure) refutes it.
+\*   diag    dyadic diagonal
+\*   upper   row-scaled unit upper-triangular integer matrix          (square-root forms only: cov / prec are symmetric)
+\*   lower   its transpose                                           (square-root forms only)
+\*   banded  tridiagonal: sqrtprec / sqrtcov  T = L1 U1 (unit bidiagonal factors: unimodular, NOT symmetric, NOT triangular);
+\*                        cov / prec          U1^T U1 (symmetric positive definite, tridiagonal)
+\*   full    sqrtprec / sqrtcov  U M (unimodular, every corner non-zero);  cov / prec  (U M)^T (U M)
+FsU4 == <<<<1, 2, -1, 1>>, <<0, 1, 3, -2>>, <<0, 0, 1, 1>>, <<0, 0, 0, 1>>>>      \* unit upper-triangular (leading block U3)
+FsM4 == <<<<1, 1, 0, 1>>, <<1, 2, 0, 0>>, <<1, 0, 1, 1>>, <<1, -1, 2, 2>>>>       \* unimodular (leading block M3)
+FsDg == <<R(2), Q(1, 2), R(4), One>>
+FsSub == <<1, 2, -1>>                                                             \* sub-diagonal of L1
+FsSup == <<2, 1, -2>>                                                             \* super-diagonal of U1
+FsMu == <<1, -2, 3, -1>>
+FsL1(d) == F([i \in 1..d |-> [j \in 1..d |-> IF i = j THEN One ELSE IF i = j + 1 THEN R(FsSub[j]) ELSE Zero]])
+FsU1(d) == F([i \in 1..d |-> [j \in 1..d |-> IF i = j THEN One ELSE IF j = i + 1 THEN R(FsSup[i]) ELSE Zero]])
+
+FsStructs == {"diag", "lower", "upper", "banded", "full"}
+FsSqrtForm(f) == f \in {"sqrtprec", "sqrtcov"}
+
+FsBase(st, d) ==
+    CASE st = "diag"   -> F(MDiag(Pre(FsDg, d)))
+      [] st = "upper"  -> MM(MDiag(Pre(FsDg, d)), MR(Lead(FsU4, d)))
+      [] st = "lower"  -> MT(MM(MDiag(Pre(FsDg, d)), MR(Lead(FsU4, d))))
+      [] st = "banded" -> MM(FsL1(d), FsU1(d))
+      [] st = "full"   -> MM(MR(Lead(FsU4, d)), MR(Lead(FsM4, d)))
+\* factor B of the symmetric forms, X = B^T B
+FsFactor(st, d) == IF st = "banded" THEN FsU1(d) ELSE FsBase(st, d)
+FsData(k) == IF FsSqrtForm(k.form) THEN FsBase(k.structure, k.dim)
+             ELSE LET B == F(FsFactor(k.structure, k.dim)) IN MM(MT(B), B)
+
+FsDiagPart(X) == F([i \in 1..Len(X) |-> [j \in 1..Len(X) |-> IF i = j THEN X[i][j] ELSE Zero]])
+\* the design's L: sqrtprec X^-1 (docstring of Gaussian._sample), sqrtcov X, prec = B^T B: B^-1, cov = B^T B: B^T
+FsL(k, X) ==
+    CASE k.form = "sqrtprec" -> IF Dev = "dia_as_diagonal" /\ k.format = "dia" THEN MInv(FsDiagPart(X)) ELSE MInv(X)
+      [] k.form = "sqrtcov"  -> X
+      [] k.form = "prec"     -> MInv(FsFactor(k.structure, k.dim))
+      [] k.form = "cov"      -> MT(FsFactor(k.structure, k.dim))
+
+IsUpper(X) == \A i \in 1..Len(X) : \A j \in 1..Len(X) : j < i => X[i][j] = Zero
+FsHasStructure(X, st, form) ==
+    LET d == Len(X)
+    IN /\ d >= 3
+       /\ CASE st = "diag"   -> \A i \in 1..d : \A j \in 1..d : (i # j => X[i][j] = Zero) /\ (i = j => X[i][j] # Zero)
+            [] st = "upper"  -> IsUpper(X) /\ ~IsLower(X) /\ X[1][d] # Zero /\ \E i \in 1..d : X[i][i] # One
+            [] st = "lower"  -> IsLower(X) /\ ~IsUpper(X) /\ X[d][1] # Zero /\ \E i \in 1..d : X[i][i] # One
+            [] st = "banded" -> /\ \A i \in 1..d : \A j \in 1..d : (i - j > 1 \/ j - i > 1) => X[i][j] = Zero
+                                /\ ~IsUpper(X) /\ ~IsLower(X)
+                                /\ (FsSqrtForm(form) => ~MSym(X))
+            [] st = "full"   -> X[1][d] # Zero /\ X[d][1] # Zero /\ (FsSqrtForm(form) => ~MSym(X))
+       /\ (~FsSqrtForm(form) => MSym(X))
+
+FsConfigs ==
+    { [kind |-> "gfs", wrap |-> w, form |-> f, structure |-> st, format |-> fm, side |-> sd, dim |-> d] :
+        w \in {"gaussian", "lognormal"}, f \in GForms, st \in FsStructs, fm \in FsFormats, sd \in {"below", "above"}, d \in FsDims }
+FsValid(k) ==
+    /\ (~FsSqrtForm(k.form) => k.structure \in {"diag", "banded", "full"})          \* a covariance / precision is symmetric
+    /\ (k.wrap = "lognormal" => k.form = "cov" /\ k.format = "ndarray")             \* Lognormal documents ndarray mean / cov
+FsThr(k) == IF k.side = "below" THEN k.dim ELSE k.dim - 1
+
+FsLaw ==
+    c.kind = "gfs" =>
+        LET X == F(FsData(c))
+            P == F(PrecOfMat(c.form, X))
+            L == F(FsL(c, X))
+        IN /\ FsHasStructure(X, c.structure, c.form)
+           /\ MSym(P)
+           /\ AffineLawHolds(L, P)
+
+FsRec(k) ==
+    LET X == F(FsData(k)) P == F(PrecOfMat(k.form, X))
+    IN [kind |-> "gfs", wrap |-> k.wrap, form |-> k.form, structure |-> k.structure, format |-> k.format, side |-> k.side,
+        thr |-> FsThr(k), dim |-> k.dim, mform |-> "vector", mean |-> Pre(FsMu, k.dim), data |-> X, prec |-> P,
+        exact |-> (k.form = "sqrtprec"), L |-> FsL(k, X)]
+EmitFs(k) == PrintT("@@CASE " \o ToJson(FsRec(k)) \o " @@END")
 
 \* ===========================================================================
 \*  Facet 1b : Gaussian Markov random fields (operators from DiffOps)
@@ -374,7 +465,7 @@ WiringLaw ==
 \* ===========================================================================
 CaseConfigs ==
     {k \in GaussConfigs : GaussValid(k)} \cup BigConfigs \cup {k \in GmrfConfigs : GmrfValid(k)}
-        \cup {k \in WiringConfigs : WiringValid(k)}
+        \cup {k \in WiringConfigs : WiringValid(k)} \cup {k \in FsConfigs : FsValid(k)}
 
 GaussRec(k) ==
     IF IsMatShape(k.shape)
@@ -411,6 +502,7 @@ EmitWiring(k) == PrintT("@@CASE " \o ToJson(WiringRec(k)) \o " @@END")
 EmitCase ==
     (Emit /\ Facet = "cases") =>
         CASE c.kind = "gauss"   -> EmitGauss(c)
+          [] c.kind = "gfs"     -> EmitFs(c)
           [] c.kind = "bigdiag" -> EmitBig(c)
           [] c.kind = "gmrf"    -> EmitGmrf(c)
           [] c.kind = "wiring"  -> EmitWiring(c)
@@ -570,6 +662,54 @@ ReSampLaws ==
              [] OTHER -> TRUE
 
 \* ===========================================================================
+\*  Facet 5 : Siblings - TWO conditioned copies of ONE conditional distribution, alive at the same time, sampled in turn
+\* ===========================================================================
+\* A conditional distribution O (some parameters are callables of conditioning variables) is conditioned twice,
+\*     A = O(values of configuration 1),   B = O(values of configuration 2),
+\* and both results are kept.  Conditioning copies O shallowly, so whatever a copy derives from its parameters for sampling
+\* (frozen base generators, factorisations, square roots, scaled operators ...) must belong to the copy that derived it:
+\* sampling A, B, A again - in any interleaving with the two conditionings and with a use of the unconditioned original O
+\* (which refuses to sample: CondRefuses of facet 3) - every draw is the one of the sampled copy's OWN configuration.
+\* The pair (configuration 1, configuration 2) is a pair of facet 4: `from` and `trail[n].expect` of an emitted Reassign case
+\* (the units assigned up to n are the callables of O); the exact expectation of each is the complete case emitted there.
+\* This facet supplies the BEHAVIOURS: every interleaving of Condition(A), Condition(B), MaxSteps samples, at most one use of O.
+\*   state  c = [kind |-> "sib", live, der, shared, last, ops, ns, no]
+\*     live    the conditioned copies made so far
+\*     der     per copy: the configuration ("A" | "B") whose derived quantities it samples with, or "none"
+\*     shared  (deviation only) ONE slot of derived quantities that all copies of O see
+\*     last    <<>> or <<sampled copy, configuration the draw was computed from>>
+\* SibOwnDraw: the draw of a copy is computed from its own configuration.  Named deviation Dev = "shared_derived" (the copies
+\* share the slot: a conditioning empties it - the setters run -, the first draw afterwards fills it, later draws of either copy
+\* use it) must be refuted: Condition A, Condition B, Sample A, Sample B.
+SibObjs == {"A", "B"}
+SibShares == Dev = "shared_derived"
+SibInit ==
+    /\ c = [kind |-> "sib", live |-> {}, der |-> [w \in SibObjs |-> "none"], shared |-> "none", last |-> <<>>, ops |-> <<>>,
+            ns |-> 0, no |-> 0]
+    /\ gpos = <<>> /\ lpos = [r \in StreamRngs |-> <<>>] /\ hist = <<>>
+SibCondition(w) ==
+    /\ w \notin c.live
+    /\ c' = [c EXCEPT !.live = @ \cup {w}, !.der[w] = "none", !.last = <<>>, !.shared = "none",
+                      !.ops = Append(@, [op |-> "condition", who |-> w])]
+SibSample(w) ==
+    /\ w \in c.live
+    /\ c.ns < MaxSteps
+    /\ LET used == IF SibShares /\ c.shared # "none" THEN c.shared ELSE w
+       IN c' = [c EXCEPT !.der[w] = used, !.last = <<w, used>>, !.ns = @ + 1, !.shared = IF SibShares THEN used ELSE @,
+                         !.ops = Append(@, [op |-> "sample", who |-> w])]
+SibOriginal ==                     \* the unconditioned original is used: sampling attempted (refused), conditioning variables listed
+    /\ c.no < 1
+    /\ c' = [c EXCEPT !.no = @ + 1, !.last = <<>>, !.ops = Append(@, [op |-> "original", who |-> "O"])]
+SibNext ==
+    /\ ((\E w \in SibObjs : SibCondition(w) \/ SibSample(w)) \/ SibOriginal)
+    /\ UNCHANGED <<gpos, lpos, hist>>
+SibOwnDraw == (Facet = "siblings" /\ c.last # <<>>) => c.last[2] = c.last[1]
+SibDerivedOwn == Facet = "siblings" => \A w \in SibObjs : c.der[w] \in {"none", w}
+SibTerminal == c.live = SibObjs /\ c.ns = MaxSteps
+EmitSiblings ==
+    (Emit /\ Facet = "siblings" /\ SibTerminal) => PrintT("@@CASE " \o ToJson([kind |-> "sibwalk", ops |-> c.ops]) \o " @@END")
+
+\* ===========================================================================
 SInit ==
     IF Facet = "cases"
     THEN /\ c \in CaseConfigs
@@ -577,7 +717,9 @@ SInit ==
     ELSE IF Facet = "reassign"
     THEN /\ c \in {k @@ [re |-> [done |-> <<>>, cached |-> <<>>]] : k \in ReSampStart}
          /\ gpos = <<>> /\ lpos = [r \in StreamRngs |-> <<>>] /\ hist = <<>>
+    ELSE IF Facet = "siblings" THEN SibInit
     ELSE StreamInit
-SNext == IF Facet = "cases" THEN UNCHANGED svars ELSE IF Facet = "reassign" THEN ReSampNext ELSE StreamNext
+SNext == IF Facet = "cases" THEN UNCHANGED svars ELSE IF Facet = "reassign" THEN ReSampNext
+         ELSE IF Facet = "siblings" THEN SibNext ELSE StreamNext
 SSpec == SInit /\ [][SNext]_svars
 =============================================================================
